@@ -15,6 +15,8 @@ A case (JSON):
                       "code": int, "body": "json"|"text"|"empty"|"rpc"|"detail"},
              "ev": null | {"d": ticks after the POST was received, "cuts": [byte offsets], "gap": ticks}}]
   exit     {"k": "normal"|"exception"|"cancel-asyncio"|"cancel-anyio", "at": ticks after entering}
+  pause    ticks after entering during which the consumer does not read the read stream
+           (back-pressure: the transport's read buffer fills up); default 0
 
 Everything scripted is injected by the loop (`loop.at`), never by timer tasks.
 """
@@ -270,8 +272,10 @@ def run_case(case):
         canceller = []
         ex = case.get("exit") or {"k": "normal", "at": 0}
 
-        async def reader(rs):
+        async def reader(rs, start):
             try:
+                if start > loop.ticks:
+                    await at_future(start)
                 async for m in rs:
                     obs["delivered"].append(dump(m))
                 return "end"
@@ -285,7 +289,7 @@ def run_case(case):
                 async with sse_client(params) as (rs, ws):
                     obs["enter"] = {"k": "yielded", "t": loop.ticks}
                     obs["rs"], obs["ws"] = rs, ws
-                    reader_task = asyncio.create_task(reader(rs))
+                    reader_task = asyncio.create_task(reader(rs, loop.ticks + case.get("pause", 0)))
 
                     def mk_write(r):
                         def f():
